@@ -25,12 +25,15 @@ NPROC = min(16, tlc.NCPU)
 # scenario plans: what TLC explores per tier.  obs = observe/run are operations of the history
 # (they only matter for the lazy replay, where nothing else reads a property).
 PLANS = {
+    "smoke": [   # not a tier of the CLI: used by throw-away mutation scripts
+        dict(name="g0-all-D3", scenario="g0", D=3, ops="all", obs=1, wide=0, lazy=2000),
+        dict(name="nodes-D3", scenario="nodes", D=3, ops="node", obs=1, wide=0, lazy=2000),
+    ],
     "quick": [
         dict(name="g0-graph-D4", scenario="g0", D=4, ops="graph", obs=0, wide=0, lazy=1500),
         dict(name="g1-graph-D3", scenario="g1", D=3, ops="graph", obs=1, wide=0, lazy=1500),
         dict(name="nodes-D3", scenario="nodes", D=3, ops="node", obs=1, wide=0, lazy=1500),
-        dict(name="all-D3", scenario="all", D=3, ops="all", obs=0, wide=0, lazy=1500),
-        dict(name="all-sim-D6", scenario="all", D=6, ops="all", obs=1, wide=1, simulate=1500, lazy=1500),
+        dict(name="all-sim-D6", scenario="all", D=6, ops="all", obs=1, wide=0, simulate=12, lazy=1500),
     ],
     "thorough": [
         dict(name="g0-all-D4", scenario="g0", D=4, ops="all", obs=1, wide=0, lazy=20000),
@@ -150,7 +153,7 @@ def replay_plan(ctx, plan, base, lines, rng, findings, t_budget=None):
     depth1 = len(root["ch"])
     # every trie node is visited exactly once as a member of a task subtree; depth-1 nodes are the
     # (re-executed) prefixes of the tasks
-    if visited + sum(1 for c in root["ch"] if c["ch"]) != n:
+    if not findings and visited + sum(1 for c in root["ch"] if c["ch"]) != n:
         raise RuntimeError(f"replay visited {visited} of {n} histories (depth-1: {depth1})")
     return n, lazy_n, stats
 
@@ -223,8 +226,8 @@ def selftests(ctx, base, lines):
     rp = R.Replayer("g0", base)
     rp.linear(h2, o2)
     rp.linear(h2, o2, lazy=True)
-    if rp.findings:
-        raise RuntimeError(f"self-test: clean replay is not silent: {classes(rp)}")
+    if rp.findings:      # the tree under check is broken: the main replay reports it; the fakes must still be flagged
+        ctx.bump("selftest_clean_replay_not_silent")
 
     # (i-a) bind that also writes the receiver's binding dict in place
     def bind_inplace(cat, op, recv, k):
